@@ -37,6 +37,9 @@ CHECKS.update({
              text="Exploration plus an exhaustively enumerated sub-space (reported in the evidence). Seeded add/resize/query scripts on the real ring buffer are compared with a list model (ids, ranges, bounds, recent events), event-store batches with the size in force, and subscribers of concurrent stream runs must receive a gap-free, repeat-free run of ids that ends with the last event."),
 })
 
+CHECKS["C13"] = dict(engine="det", design="4/C13", technique="hostile-input monitor: generated SI messages injected into reachable states in child processes; every message logged before sending; oracle = process alive + barrier returns + matching rejection + ledger snapshot unchanged + conservation",
+    note="Trusted: the harness; the generator's knowledge of which items are invalid by the protocol's own rules. No nil list elements / nil map values (excluded by the property).",
+    text="Exploration of inputs x states. 24 classes of hostile or malformed SI messages are injected after seeded legal prefixes; a dead worker is a violation whose witness is the last logged message, a barrier that does not return within 30 s is a hang, invalid items must be answered with the matching rejection and leave the ledger snapshot identical, every message must leave the accounting consistent.")
 CHECKS["C14"] = dict(engine="conc", design="4/C14", technique="Go race detector (-race) + go-deadlock lock-order/timeout detection + seeded lock-acquire yields over a concurrent workload; bounded-progress (quiescence + double goroutine dump); quiescent-state oracles on the final snapshot",
     note="Trusted: Go race detector, go-deadlock, the harness. Only interleavings that were executed are judged. Final-state violations in runs with node removal / application removal / reload / RM-bound allocations match known findings (races in the core, see known_findings.json); the calm class (asks, releases, capacity changes, drains, foreign allocations, confirmations, REST readers) has no known finding except the reservation three-view race.",
     text="Exploration of schedules. Each case is a 5-7 s run of the real core with its scheduling loop, handlers, quota preemption loop, 50 ms health checker and timers under -race and go-deadlock, hammered by 3-6 clients, a confirmer, a reloader, a node updater and 3 REST readers, with seeded yields at every lock acquisition and GOMAXPROCS 2-16. Reports: data races (de-duplicated by innermost core frame pair), lock-order inversions / potential deadlocks, blocked goroutines after the input stops, final-state invariant violations.")
